@@ -99,7 +99,15 @@ func runGen(seed uint64, programs, length int, kind, profile, opsPath, outPath, 
 		if err != nil {
 			return err
 		}
-		fmt.Fprintf(ops, "begin kind=%s prog=%d\n", kind, p)
+		if profile == "life" {
+			d := 0
+			if kind == "disk" {
+				d = 1
+			}
+			fmt.Fprintf(ops, "begin kind=life disk=%d prog=%d\n", d, p)
+		} else {
+			fmt.Fprintf(ops, "begin kind=%s prog=%d\n", kind, p)
+		}
 		fmt.Fprintf(out, "begin\n")
 		g := &Gen{r: rng, w: w, profile: profile, oldCas: map[string][]uint64{}, stats: stats}
 		g.emit = func(l Line) string {
@@ -119,7 +127,7 @@ func runGen(seed uint64, programs, length int, kind, profile, opsPath, outPath, 
 		g.program(length)
 		fmt.Fprintln(ops, "end")
 		fmt.Fprintln(out, "end")
-		w.close()
+		closeWatchdog(w.close, func() { ops.Flush(); out.Flush() })
 	}
 	stats["_programs"] = programs
 	stats["_lines"] = nOps
@@ -182,21 +190,28 @@ func runReplay(opsPath, outPath string) error {
 				fmt.Fprintln(out, "begin")
 				continue
 			}
-			w, err = newWorld(l.str("kind", "mem"))
+			kind := l.str("kind", "mem")
+			if kind == "life" {
+				kind = "mem"
+				if l.flag("disk") {
+					kind = "disk"
+				}
+			}
+			w, err = newWorld(kind)
 			if err != nil {
 				return err
 			}
 			fmt.Fprintln(out, "begin")
 		case "end":
+			fmt.Fprintln(out, "end")
 			if w != nil {
-				w.close()
+				closeWatchdog(w.close, func() { out.Flush() })
 				w = nil
 			}
 			if rw != nil {
-				rw.close()
+				closeWatchdog(rw.close, func() { out.Flush() })
 				rw = nil
 			}
-			fmt.Fprintln(out, "end")
 		default:
 			if rw != nil {
 				fmt.Fprintln(out, rw.exec(l))
@@ -223,6 +238,18 @@ func runReplay(opsPath, outPath string) error {
 		rw.close()
 	}
 	return sc.Err()
+}
+
+// closeWatchdog tears a world down; an implementation stuck on a held lock cannot be torn down: leave the process.
+func closeWatchdog(closeFn func(), flush func()) {
+	done := make(chan struct{})
+	go func() { closeFn(); close(done) }()
+	select {
+	case <-done:
+	case <-time.After(8 * time.Second):
+		flush()
+		os.Exit(3)
+	}
 }
 
 // execWatchdog runs one line with a deadline; a call that does not return is reported as "r=hang".
